@@ -1,13 +1,233 @@
-import RulioModel.Loc
+import RulioModel.LocInv
+import RulioModel.Gen.Loc
+import RulioProofs.LocGuards
 
-/-! # C19 — access control (placeholder obligations until the Loc proofs land) -/
+open LocP
 
-/-- every mutating method of the Location API checks the write key -/
-theorem mutators_check_write :
-    ["AddFact", "RemFact", "AddRule", "RemRule", "EnableRule", "SetParents", "Clear", "Delete"].all
-      (fun m => (guardsOf m).contains .checkWrite) = true := by decide
+/-! # C19 — access controls and enablement are enforced on every path (property theorems only)
 
-/-- every revealing method checks the read key -/
-theorem readers_check_read :
-    ["GetFact", "GetRule", "searchFacts", "searchRules", "SearchRules", "ListRules", "GetParents", "RuleEnabled", "StateSize"].all
-      (fun m => (guardsOf m).contains .checkRead) = true := by decide
+`Gen.*` is regenerated from `core/location.go`, `core/state.go`, `core/events.go` before this file is built.
+The model's methods are `locX = guards of "X"; body of X` (`guardsOf`, RulioModel/Loc.lean). -/
+
+/-- The guard table regenerated from `location.go` (calls of `Enabled` / `CheckRead` / `CheckWrite` /
+`AtCapacity` at the top of each method, in source order), restricted to the methods of the model, is the
+table `guardsOf` the model runs.  Removing or reordering a guard in `location.go` breaks this theorem. -/
+theorem guards_match_model : guardsAgree Gen.locationGuards = true := by decide
+
+/-- The comparisons translated from the Go source are the ones the model uses: `notAfter`
+(`secs == 0 ⇒ false`, else `secs <= now`), `AtCapacity` (`MaxFacts <= Count`), `Enabled` (property and accepted
+values), `CheckWrite` / `CheckRead` (read-only test first / property / key test against the caller's key),
+`IdProperty`, `genPropId`; likewise the twins (`enabledOK`, `keyOK`, `capFull`, property names) that
+`guardVerdict` — the closed form of the guards used by the theorems below — is written with.  A flipped operator or a changed literal in Go breaks this theorem. -/
+theorem gen_defs_match_model :
+    (∀ secs now : Int, notAfter secs now = Gen.notAfter secs now) ∧
+    (∀ secs now : Int, secs ≠ 0 → notAfter secs now = Gen.notAfterCmp secs now) ∧
+    (∀ now : Int, notAfter 0 now = false) ∧
+    (∀ l : Loc, atCapacity l =
+        (l, if Gen.atCapacityCmp l.maxFacts l.st.count then .error "capacity" else .ok ())) ∧
+    (∀ now : Int, enabled now =
+        (getPropStringD Gen.enabledProp now >>= fun e => if Gen.enabledOK e then pure () else LM.fail "disabled")) ∧
+    (∀ e : String, Gen.enabledOK e = Gen.enabledValues.contains e) ∧
+    (∀ (c : Ctx) (now : Int), checkWrite c now =
+        (LM.get >>= fun l => if l.readOnly then LM.fail "readOnly" else
+          getPropStringD Gen.checkWriteProp now >>= fun k =>
+            if Gen.checkWriteKeyOK c.wk k then pure () else LM.fail "writeDenied")) ∧
+    Gen.checkWriteReadOnlyFirst = true ∧ Gen.checkWriteCtxField = "WriteKey" ∧
+    (∀ (c : Ctx) (now : Int), checkRead c now =
+        (getPropStringD Gen.checkReadProp now >>= fun k =>
+          if Gen.checkReadKeyOK c.rk k then pure () else LM.fail "readDenied")) ∧
+    Gen.checkReadReadOnlyFirst = false ∧ Gen.checkReadCtxField = "ReadKey" ∧
+    (∀ p : String, idProperty p = Gen.idProperty p) ∧
+    (∀ id prop : String, genPropId id prop = Gen.genPropId id prop) ∧
+    (enabledOK = Gen.enabledOK ∧ keyOK = Gen.checkWriteKeyOK ∧ keyOK = Gen.checkReadKeyOK ∧
+      capFull = Gen.atCapacityCmp ∧ propEnabled = Gen.enabledProp ∧ propWriteKey = Gen.checkWriteProp ∧
+      propReadKey = Gen.checkReadProp) := by
+  refine ⟨fun _ _ => rfl, ?_, ?_, ?_, fun _ => rfl, ?_, fun _ _ => rfl, rfl, rfl, fun _ _ => rfl, rfl, rfl,
+    fun _ => rfl, fun _ _ => rfl, rfl, rfl, rfl, rfl, rfl, rfl, rfl⟩
+  · intro secs now h
+    simp [notAfter, Gen.notAfterCmp, h]
+  · intro now; simp [notAfter]
+  · intro l
+    simp only [atCapacity, bind, LM.bind, LM.get, Gen.atCapacityCmp]
+    by_cases h : l.maxFacts ≤ l.st.count <;> simp [h, LM.fail, pure, LM.pure]
+  · intro e
+    simp only [Gen.enabledOK, Gen.enabledValues, List.contains, List.elem]
+    cases (e == "") <;> cases (e == "yes") <;> cases (e == "true") <;> rfl
+
+/-- Every mutating method is guarded by both `Enabled` and `CheckWrite`; every revealing method by both
+`Enabled` and `CheckRead` (read off the model's table, which `guards_match_model` ties to the source). -/
+theorem every_path_is_guarded :
+    (∀ m ∈ mutatingMethods, Guard.enabled ∈ guardsOf m ∧ Guard.checkWrite ∈ guardsOf m) ∧
+    (∀ m ∈ revealingMethods, Guard.enabled ∈ guardsOf m ∧ Guard.checkRead ∈ guardsOf m) ∧
+    (∀ m ∈ mutatingMethods ++ revealingMethods, m ∈ modelMethods) := by decide
+
+/-- Generic form of a refusal: when some guard of the list refuses, the guarded method returns an error and
+the location (facts, storage, everything) is exactly what it was.  `GuardFresh`: the property facts
+`!.enabled`, `!.writeKey`, `!.readKey` are not expired at `now` (reading an expired one purges it; that is the
+only way a guard changes the state). -/
+theorem guard_fail_noop {α} (c : Ctx) (now : Int) (gs : List Guard) (body : LM α) (l : Loc)
+    (hf : GuardFresh l.st now) (g : Guard) (hg : g ∈ gs) (e : LErr) (he : guardVerdict c now l g = .error e) :
+    runGuard c now g l = (l, .error e) ∧
+    ∃ e', (runGuards c now gs >>= fun _ => body) l = (l, .error e') := by
+  refine ⟨by rw [runGuard_eq hf c g, he], ?_⟩
+  obtain ⟨e', he'⟩ := guardsVerdict_error_of_mem (gs := gs) hg he
+  exact ⟨e', by rw [guarded_eq hf c gs body, he']⟩
+
+/-- **Refused writes are no-ops.** On a location that is read-only, or has a `!writeKey` the caller does not
+present, or is disabled, every mutating method of the model returns an error and leaves the location — its
+facts and its storage included — unchanged. -/
+theorem refused_is_noop (l : Loc) (c : Ctx) (now : Int) (hf : GuardFresh l.st now)
+    (hr : WriteDenied l c now ∨ Disabled l now) :
+    (∀ id f, ∃ e, locAddFact c id f now l = (l, .error e)) ∧
+    (∀ id, ∃ e, locRemFact c id now l = (l, .error e)) ∧
+    (∀ id r, ∃ e, locAddRule c id r now l = (l, .error e)) ∧
+    (∀ id, ∃ e, locRemRule c id now l = (l, .error e)) ∧
+    (∀ id b, ∃ e, locEnableRule c id b now l = (l, .error e)) ∧
+    (∀ ps, ∃ e, locSetParents c ps now l = (l, .error e)) ∧
+    (∃ e, locClear c now l = (l, .error e)) := by
+  have key : ∀ m ∈ mutatingMethods, ∃ e, guardsVerdict c now l (guardsOf m) = .error e := by
+    intro m hm
+    have hg := every_path_is_guarded.1 m hm
+    rcases hr with hw | hd
+    · obtain ⟨e, he⟩ := verdict_writeDenied hw
+      exact guardsVerdict_error_of_mem hg.2 he
+    · exact guardsVerdict_error_of_mem hg.1 (verdict_disabled (c := c) hd)
+  have run : ∀ {α} (m : String) (body : LM α), m ∈ mutatingMethods →
+      ∃ e, (runGuards c now (guardsOf m) >>= fun _ => body) l = (l, .error e) := by
+    intro α m body hm
+    obtain ⟨e, he⟩ := key m hm
+    exact ⟨e, by rw [guarded_eq hf c _ body, he]⟩
+  refine ⟨fun id f => ?_, fun id => ?_, fun id r => ?_, fun id => ?_, fun id b => ?_, fun ps => ?_, ?_⟩
+  · rw [locAddFact_split]; exact run "AddFact" _ (by decide)
+  · rw [locRemFact_split]; exact run "RemFact" _ (by decide)
+  · rw [locAddRule_split]; exact run "AddRule" _ (by decide)
+  · rw [locRemRule_split]; exact run "RemRule" _ (by decide)
+  · rw [locEnableRule_split]; exact run "EnableRule" _ (by decide)
+  · rw [locSetParents_split]; exact run "SetParents" _ (by decide)
+  · rw [locClear_split]; exact run "Clear" _ (by decide)
+
+/-- The same, spelled out on facts and storage. -/
+theorem refused_leaves_facts_and_store (l : Loc) (c : Ctx) (now : Int) (hf : GuardFresh l.st now)
+    (hr : WriteDenied l c now ∨ Disabled l now) (id : String) (f : Obj) :
+    (∃ e, (locAddFact c id f now l).2 = .error e) ∧
+    (locAddFact c id f now l).1.st.facts = l.st.facts ∧ (locAddFact c id f now l).1.st.store = l.st.store ∧
+    (∃ e, (locRemFact c id now l).2 = .error e) ∧
+    (locRemFact c id now l).1.st.facts = l.st.facts ∧ (locRemFact c id now l).1.st.store = l.st.store := by
+  obtain ⟨⟨e1, h1⟩, ⟨e2, h2⟩⟩ := And.intro ((refused_is_noop l c now hf hr).1 id f) ((refused_is_noop l c now hf hr).2.1 id)
+  rw [h1, h2]; exact ⟨⟨e1, rfl⟩, rfl, rfl, ⟨e2, rfl⟩, rfl, rfl⟩
+
+/-- **Reads need the read key.** On a location with a `!readKey` the caller does not present, every
+revealing method fails and leaves the location unchanged; the error is "readDenied" unless the location is
+also disabled (then "disabled", the `Enabled` guard comes first). -/
+theorem reads_need_read_key (l : Loc) (c : Ctx) (now : Int) (hf : GuardFresh l.st now)
+    (hr : ReadDenied l c now) :
+    let e := if Disabled l now then "disabled" else "readDenied"
+    (∀ id, locGetFact c id now l = (l, .error e)) ∧
+    (∀ p, locSearchFacts c p now l = (l, .error e)) ∧
+    (∀ ev, locSearchRules c ev now l = (l, .error e)) ∧
+    (∀ id, locGetRule c id now l = (l, .error e)) ∧
+    (locGetParents c now l = (l, .error e)) ∧
+    (∀ id, locRuleEnabled c id now l = (l, .error e)) ∧
+    (locStateSize c now l = (l, .error e)) ∧
+    (∀ (sys : Sys) (n : String) (inh : Bool), sys.get? n = some l →
+      sysListRules sys c n inh now = (sys.put l, .error e)) := by
+  intro e
+  have key : guardsVerdict c now l [.enabled, .checkRead] = .error e := by
+    by_cases hd : Disabled l now
+    · simp only [e, hd, if_true]; exact guardsVerdict_head (verdict_disabled hd)
+    · simp only [e, hd, if_false, guardsVerdict, verdict_enabled hd, verdict_readDenied hr]
+  have run : ∀ {α} (body : LM α), (runGuards c now [.enabled, .checkRead] >>= fun _ => body) l = (l, .error e) := by
+    intro α body; rw [guarded_eq hf c _ body, key]
+  refine ⟨fun id => ?_, fun p => ?_, fun ev => ?_, fun id => ?_, ?_, fun id => ?_, ?_, fun sys n inh hn => ?_⟩
+  · rw [locGetFact_split]; exact run _
+  · rw [locSearchFacts_split]; exact run _
+  · rw [locSearchRules_split]; exact run _
+  · rw [locGetRule_split]; exact run _
+  · rw [locGetParents_split]; exact run _
+  · rw [locRuleEnabled_split]; exact run _
+  · rw [locStateSize_split]; exact run _
+  · have hg : runGuards c now (guardsOf "ListRules") l = (l, .error e) := by
+      rw [runGuards_eq hf c]; exact congrArg _ key
+    simp only [sysListRules, Sys.at, hn, hg]
+
+/-- **With the right keys the guards are transparent.** On an enabled location, for a caller who presents
+the write key and the read key (or none is set; not read-only), the guards of every method let the call
+through without changing the location — only the capacity test of `AddFact` / `AddRule` can still refuse —
+so every method behaves as its unguarded body, as on an unprotected location. -/
+theorem right_key_transparent (l : Loc) (c : Ctx) (now : Int) (hf : GuardFresh l.st now)
+    (he : ¬ Disabled l now) (hw : ¬ WriteDenied l c now) (hr : ¬ ReadDenied l c now) :
+    (∀ m, runGuards c now (guardsOf m) l = (l, capacityResult l (guardsOf m))) ∧
+    (∀ id f, l.st.count < l.maxFacts → locAddFact c id f now l = Body.addFact id f now l) ∧
+    (∀ id r, l.st.count < l.maxFacts → locAddRule c id r now l = Body.addRule id r now l) ∧
+    (∀ id, locRemFact c id now l = Body.remFact id now l) ∧
+    (∀ id, locGetFact c id now l = Body.getFact id now l) ∧
+    (∀ id, locRemRule c id now l = Body.remRule id now l) ∧
+    (∀ id b, locEnableRule c id b now l = Body.enableRule id b now l) ∧
+    (∀ id, locRuleEnabled c id now l = Body.ruleEnabled id now l) ∧
+    (∀ id, locGetRule c id now l = Body.getRule id now l) ∧
+    (∀ p, locSearchFacts c p now l = Body.searchFacts p now l) ∧
+    (∀ ev, locSearchRules c ev now l = Body.searchRules ev now l) ∧
+    (locGetParents c now l = Body.getParents now l) ∧
+    (∀ ps, locSetParents c ps now l = Body.setParents ps now l) ∧
+    (locClear c now l = Body.clear l) ∧
+    (locStateSize c now l = Body.stateSize l) := by
+  have v : ∀ gs, guardsVerdict c now l gs = capacityResult l gs := guardsVerdict_transparent he hw hr
+  have run : ∀ {α} (m : String) (body : LM α), capacityResult l (guardsOf m) = .ok () →
+      (runGuards c now (guardsOf m) >>= fun _ => body) l = body l := by
+    intro α m body hc; rw [guarded_eq hf c _ body, v, hc]
+  have nocap : ∀ m, Guard.atCapacity ∉ guardsOf m → capacityResult l (guardsOf m) = .ok () := by
+    intro m hm; simp [capacityResult, hm]
+  have cap : ∀ m, l.st.count < l.maxFacts → capacityResult l (guardsOf m) = .ok () := by
+    intro m hm; simp [capacityResult, Nat.not_le.2 hm]
+  refine ⟨fun m => by rw [runGuards_eq hf c, v], fun id f h => ?_, fun id r h => ?_, fun id => ?_, fun id => ?_,
+    fun id => ?_, fun id b => ?_, fun id => ?_, fun id => ?_, fun p => ?_, fun ev => ?_, ?_, fun ps => ?_, ?_, ?_⟩
+  · rw [locAddFact_split]; exact run "AddFact" _ (cap _ h)
+  · rw [locAddRule_split]; exact run "AddRule" _ (cap _ h)
+  · rw [locRemFact_split]; exact run "RemFact" _ (nocap _ (by decide))
+  · rw [locGetFact_split]; exact run "GetFact" _ (nocap _ (by decide))
+  · rw [locRemRule_split]; exact run "RemRule" _ (nocap _ (by decide))
+  · rw [locEnableRule_split]; exact run "EnableRule" _ (nocap _ (by decide))
+  · rw [locRuleEnabled_split]; exact run "RuleEnabled" _ (nocap _ (by decide))
+  · rw [locGetRule_split]; exact run "GetRule" _ (nocap _ (by decide))
+  · rw [locSearchFacts_split]; exact run "searchFacts" _ (nocap _ (by decide))
+  · rw [locSearchRules_split]; exact run "searchRules" _ (nocap _ (by decide))
+  · rw [locGetParents_split]; exact run "GetParents" _ (nocap _ (by decide))
+  · rw [locSetParents_split]; exact run "SetParents" _ (nocap _ (by decide))
+  · rw [locClear_split]; exact run "Clear" _ (nocap _ (by decide))
+  · rw [locStateSize_split]; exact run "StateSize" _ (nocap _ (by decide))
+
+/-! ## the hypotheses are satisfiable: a location protected by a write key -/
+
+/-- a linear-state location holding the property fact `!.writeKey = "s3cret"` and one ordinary fact -/
+def c19Example : Loc :=
+  { name := "home",
+    st := { kind := .linear,
+            facts := [("!.writeKey", [("id", .str ""), ("!writeKey", .str "s3cret"), ("deleteWith", .arr [.str ""])]),
+                      ("f1", [("likes", .str "tacos")])],
+            store := [("!.writeKey", .obj [("id", .str ""), ("!writeKey", .str "s3cret"), ("deleteWith", .arr [.str ""])]),
+                      ("f1", .obj [("likes", .str "tacos")])] } }
+
+example : GuardFresh c19Example.st 100 := guardFresh_of_b (by decide)
+example : propStr c19Example.st "writeKey" 100 = "s3cret" := by decide
+/-- no key and a wrong key are refused, the right key is not; the location is enabled and has no read key -/
+example : WriteDenied c19Example {} 100 ∧ WriteDenied c19Example { wk := "guess" } 100 ∧
+    ¬ WriteDenied c19Example { wk := "s3cret" } 100 ∧ ¬ Disabled c19Example 100 ∧
+    ¬ ReadDenied c19Example {} 100 := by decide
+/-- the refusal, computed: the caller without the key gets "writeDenied" and the same location back -/
+example : (locRemFact {} "f1" 100 c19Example).2 = .error "writeDenied" ∧
+    (locRemFact {} "f1" 100 c19Example).1.st.facts = c19Example.st.facts := by
+  obtain ⟨e, he⟩ := (refused_is_noop c19Example {} 100 (guardFresh_of_b (by decide)) (Or.inl (by decide))).2.1 "f1"
+  have hv : guardsVerdict {} 100 c19Example (guardsOf "RemFact") = .error "writeDenied" := by decide
+  rw [locRemFact_split, guarded_eq (guardFresh_of_b (by decide)), hv]
+  exact ⟨rfl, rfl⟩
+/-- with the key the write goes through (`Clear` empties the location); reads need no key here -/
+example : (locClear { wk := "s3cret" } 100 c19Example).2 = .ok () ∧
+    (locClear { wk := "s3cret" } 100 c19Example).1.st.facts = [] ∧
+    (locGetFact {} "f1" 100 c19Example).2 = .ok [("likes", .str "tacos")] := by
+  have t := right_key_transparent c19Example { wk := "s3cret" } 100 (guardFresh_of_b (by decide))
+    (by decide) (by decide) (by decide)
+  rw [t.2.2.2.2.2.2.2.2.2.2.2.2.2.1]
+  refine ⟨rfl, rfl, ?_⟩
+  have hv : guardsVerdict {} 100 c19Example (guardsOf "GetFact") = .ok () := by decide
+  rw [locGetFact_split, guarded_eq (guardFresh_of_b (by decide)), hv]
+  rfl
